@@ -75,6 +75,12 @@ inline std::string comparePacket(const ExpPacket& e, const lib::Obs& o, std::str
     }
     if ((o.flags & ~wire::SEG_MASK) != (e.flags & ~wire::SEG_MASK))
         return fail("field.flags", "flags got " + hex(o.flags) + " want " + hex(e.flags));
+    {
+        static const uint8_t masks[6] = {0x01, 0x02, 0x0C, 0x10, 0x20, 0x40};
+        for (int i = 0; i < 6; ++i)
+            if ((((o.flagQuery >> i) & 1) != 0) != ((o.flags & masks[i]) != 0))
+                return fail("field.flags", "getCommonFlag(" + hex(masks[i]) + ") disagrees with getCommonFlags() = " + hex(o.flags));
+    }
     if (o.plen != e.payload.size())
         return fail("field.length", "payload length got " + std::to_string(o.plen) + " want " + std::to_string(e.payload.size()));
     if (o.payload.size() != e.payload.size())
@@ -101,6 +107,32 @@ inline std::string comparePacket(const ExpPacket& e, const lib::Obs& o, std::str
             return fail("payload-bytes",
                         "payload differs at byte " + std::to_string(i) + " of " + std::to_string(e.payload.size()) + ": got " +
                             hex(o.payload[i]) + " want " + hex(e.payload[i]));
+        }
+        // the serialised header images (Packet::getRawCmpHeader / getRawMessageHeader) are the big-endian wire
+        // headers of exactly these values, reserved bytes zero
+        if (o.rawCmpHeader.size() == wire::CMP_HDR && o.rawMsgHeader.size() == wire::MSG_HDR)
+        {
+            uint8_t c[wire::CMP_HDR] = {0}, m[wire::MSG_HDR] = {0};
+            c[0] = e.version;
+            wire::wr16(c + 2, e.dev);
+            c[4] = e.mtype;
+            c[5] = e.stream;
+            wire::wr16(c + 6, o.seq);
+            for (int k = 0; k < 8; ++k)
+                m[k] = static_cast<uint8_t>(e.ts >> (56 - 8 * k));
+            if (wire::idKindOf(e.mtype) == wire::ID_INTERFACE)
+                wire::wr32(m + 8, e.id32);
+            else if (wire::idKindOf(e.mtype) == wire::ID_VENDOR)
+                wire::wr16(m + 10, static_cast<uint16_t>(e.id32));
+            m[12] = o.flags;
+            m[13] = e.ptype;
+            wire::wr16(m + 14, static_cast<uint16_t>(e.payload.size()));
+            for (size_t k = 0; k < wire::CMP_HDR; ++k)
+                if (o.rawCmpHeader[k] != c[k])
+                    return fail("field.raw-image", "raw CMP header image byte " + std::to_string(k) + " got " + hex(o.rawCmpHeader[k]) + " want " + hex(c[k]));
+            for (size_t k = 0; k < wire::MSG_HDR; ++k)
+                if (o.rawMsgHeader[k] != m[k])
+                    return fail("field.raw-image", "raw message header image byte " + std::to_string(k) + " got " + hex(o.rawMsgHeader[k]) + " want " + hex(m[k]));
         }
     }
     return "";
